@@ -104,9 +104,10 @@ func inputs(c *Ctx, e escaper, nRandom int, f func(s string)) {
 
 // strings around the three-byte encodings of U+2028 / U+2029 and other rune boundaries
 var extraStrings = []string{
+	"<c",
 	" ", " ", "a b", "  ", "\xe2\x80", "\xe2\x80\xa7", "\xe2\x80\xaa", "\xe2\xe2\x80\xa8", "\xe2\x80\xe2\x80\xa8",
 	"\xf0\xe2\x80\xa8", "\xe2\x80\xa8\xa8", "\xe2", "\x80\xa8", "\xef\xbf\xbd", "\xed\xa0\x80", "\xf4\x90\x80\x80", "\xf0\x9f\x98\x80<",
-	"<c", "<g", "\\c", "\\\\", "<\n", "<\\", "\x00c", "%41", "%4", "%", "%%41", "%zz", "a%41%4g%", "&amp;", "&&", "a onclick=x",
+	"<g", "\\c", "\\\\", "<\n", "<\\", "\x00c", "%41", "%4", "%", "%%41", "%zz", "a%41%4g%", "&amp;", "&&", "a onclick=x",
 }
 
 func main() { Main() }
